@@ -569,3 +569,79 @@ Example demo_oneof_rules :
   run_rules rule_on_value (rules_of (s "oneof='abc' 'x y'")) (VStr (s "x y")) = Some true /\
   run_rules rule_on_value (rules_of (s "oneof=abc xyz")) (VStr (s "abcxyz")) = Some false.
 Proof. vm_compute. repeat split; reflexivity. Qed.
+
+(* ------------------------------------------------------------------ *)
+(* "each parameter is bound from its declared source": the handler's outcome depends on the
+   request ONLY through the body and through what the request carries at the declared location
+   under the wire name of each of the method's parameters - a value with the same name in another
+   location (a decoy), or any other field, cannot influence it *)
+
+Definition agree_on (ps : list param) (r1 r2 : request) : Prop :=
+  rq_body r1 = rq_body r2 /\
+  forall p, In p ps -> lookup (rq_fields r1) (pa_loc p) (wire_name p) = lookup (rq_fields r2) (pa_loc p) (wire_name p).
+
+Lemma bind_param_agree authn r1 r2 p :
+  rq_body r1 = rq_body r2 ->
+  lookup (rq_fields r1) (pa_loc p) (wire_name p) = lookup (rq_fields r2) (pa_loc p) (wire_name p) ->
+  bind_param authn r1 p = bind_param authn r2 p.
+Proof.
+  intros Hb Hl. unfold bind_param. destruct (pa_ctx p); [reflexivity|].
+  destruct (pa_loc p); try (rewrite Hl; reflexivity).
+  rewrite Hb. reflexivity.
+Qed.
+
+Lemma bind_all_agree authn r1 r2 ps :
+  agree_on ps r1 r2 -> bind_all authn r1 ps = bind_all authn r2 ps.
+Proof.
+  intros [Hb Hl]. induction ps as [|p ps IH]; [reflexivity|]. cbn [bind_all].
+  rewrite (bind_param_agree authn r1 r2 p Hb (Hl p (or_introl eq_refl))).
+  rewrite IH; [reflexivity|]. intros q Hq. apply Hl. right; exact Hq.
+Qed.
+
+Theorem handle_depends_only_on_declared_sources cfg c m tbl sc r1 r2 :
+  agree_on (m_params m) r1 r2 -> handle cfg c m tbl sc r1 = handle cfg c m tbl sc r2.
+Proof.
+  intros Ha. unfold handle.
+  destruct (authorize (script_cb tbl) [] (gate_alts cfg c m)) as [[hist res] tr].
+  destruct res as [r|]; [reflexivity|].
+  rewrite (bind_all_agree (List.length hist) r1 r2 (m_params m) Ha). reflexivity.
+Qed.
+
+(* non-vacuity: a decoy under the same name in another location changes nothing *)
+Example demo_decoy_ignored :
+  handle demo_cfg demo_ctrl demo_method [] (mkOp false None) (demo_rq "5" "7") =
+  handle demo_cfg demo_ctrl demo_method [] (mkOp false None)
+         (mkReq (rq_fields (demo_rq "5" "7") ++ [(LQuery, s "id", [s "999"]); (LForm, s "X-q", [s "0"]); (LHeader, s "other", [s "z"])]) BEmpty).
+Proof. vm_compute. reflexivity. Qed.
+
+(* the gate comes first: a refused request is answered without looking at the request at all -
+   whatever else it carries (malformed parameters, a broken body), the answer is the same *)
+Theorem handle_refusal_independent_of_request cfg c m tbl sc r1 r2 tr r :
+  handle cfg c m tbl sc r1 = (tr, Refused r) -> handle cfg c m tbl sc r2 = (tr, Refused r).
+Proof.
+  unfold handle. destruct (authorize (script_cb tbl) [] (gate_alts cfg c m)) as [[hist res] tr0].
+  destruct res as [r0|]; [intros H; exact H|].
+  destruct (bind_all (List.length hist) r1 (m_params m)); intros H; inversion H.
+Qed.
+
+Example demo_refused_whatever_the_request :
+  handle demo_cfg demo_ctrl demo_method [(KAll, mkRefusal 403 (s "no"))] (mkOp false None) (demo_rq "5" "7") =
+  handle demo_cfg demo_ctrl demo_method [(KAll, mkRefusal 403 (s "no"))] (mkOp false None) (demo_rq "not-a-number" "-1").
+Proof. vm_compute. reflexivity. Qed.
+
+(* ------------------------------------------------------------------ *)
+(* C04 at the level of whole requests: the alternatives the handler's gate walks through are the
+   security requirements the OpenAPI document shows for the operation - same schemes, same scopes,
+   same order *)
+From Gleece Require Import Proofs.CrossProofs.
+
+Theorem handler_gate_is_documented_security cfg c m (o : operation) :
+  sec_matches c m cfg o = true ->
+  gate_alts cfg c m = map req_to_alt (o_security o).
+Proof.
+  unfold sec_matches. intros H.
+  repeat (apply andb_true_iff in H; destruct H as [H ?]).
+  match goal with Hs : list_eqb requirement_eqb _ _ = true |- _ =>
+    apply (list_eqb_spec requirement_eqb requirement_eqb_spec) in Hs; rewrite Hs end.
+  unfold gate_alts. rewrite map_map. reflexivity.
+Qed.
